@@ -3810,6 +3810,26 @@ class OpAlignPartitions(MaybeAlignPartitions):
             )
             return self._op(frame, self.op, other, *self.operands[3:])
 
+        if self.divisions[0] is None:
+            # Unknown divisions on either side: co-locate equal index values by
+            # shuffling on the index, as MaybeAlignPartitions._lower does
+            # (repartitioning to ``(None, ...)`` raised TypeError)
+            npartitions = max(df.npartitions for df in dfs)
+            dtypes = {df._meta.index.dtype for df in dfs}
+            if not _are_dtypes_shuffle_compatible(dtypes):
+                raise TypeError(
+                    "DataFrames are not aligned. We need to shuffle to align partitions "
+                    "with each other. This is not possible because the indexes of the "
+                    f"DataFrames have differing dtypes={dtypes}. Please ensure that "
+                    "all Indexes have the same dtype or align manually for this to "
+                    "work."
+                )
+            from dask.dataframe.dask_expr._shuffle import RearrangeByColumn
+
+            frame = RearrangeByColumn(self.frame, None, npartitions, index_shuffle=True)
+            other = RearrangeByColumn(self.other, None, npartitions, index_shuffle=True)
+            return self._op(frame, self.op, other, *self.operands[3:])
+
         from dask.dataframe.dask_expr._repartition import RepartitionDivisions
 
         frame = RepartitionDivisions(
